@@ -133,6 +133,61 @@ def make_group(rng, gid, fn, tilt, layout, wl_dtype, canonical=None, gmag=None, 
             'wl': [hx(x / wlu[1]) for x in wl_si], 'wl_unit': wlu[0], 'wl_dtype': wl_dtype}
 
 
+# ---- detectors CLOSE TO THE BEAM AXIS (direct-beam / SANS centre / reflectometry pixels): gravity-free 2theta
+# from 1e-6 to 5e-2 rad and within 1e-6..1e-2 of pi, measured from the ACTUAL (tilted) incident beam
+AXIS_ANGLES = [1e-6, 1e-5, 1e-4, 1e-3, 1e-2, 5e-2]
+AXIS_ANTI = [1e-6, 1e-4, 1e-2]
+AXIS_WL = [0.0, 1e-13, 1e-11, 1e-10, 1.8e-10, 5e-10, 1e-9]
+
+
+def make_axis_group(rng, gid, fn, tilt, layout, wl_dtype, canonical=None):
+    """like make_group, but the 8 detectors lie on narrow cones around the incident beam (6) and around its
+    continuation backwards (2), at random azimuths; L2 0.5..20 m"""
+    g = make_group(rng, gid, fn, tilt, layout, wl_dtype, canonical=canonical,
+                   gmag=rng.choice([9.81, 9.81, 100.0, kcorr.loguniform(rng, 1e-3, 100.0)]))
+    b1 = [float.fromhex(c) for c in g['b1']]
+    n = math.sqrt(sum(c * c for c in b1))
+    e = [c / n for c in b1]
+    # two directions orthogonal to the beam
+    k = min(range(3), key=lambda i: abs(e[i]))
+    t = [1.0 if i == k else 0.0 for i in range(3)]
+    d = sum(a * b for a, b in zip(t, e))
+    p = [a - d * b for a, b in zip(t, e)]
+    pn = math.sqrt(sum(c * c for c in p))
+    p = [c / pn for c in p]
+    q_ = [e[1] * p[2] - e[2] * p[1], e[2] * p[0] - e[0] * p[2], e[0] * p[1] - e[1] * p[0]]
+    b2m = dict(LEN_UNITS)[g['b2_unit']]
+    angles = [rng.choice(AXIS_ANGLES) * rng.uniform(1.0, 2.0) for _ in range(2)] + rng.sample(AXIS_ANGLES, 4) \
+        + [math.pi - a for a in rng.sample(AXIS_ANTI, 2)]
+    rng.shuffle(angles)
+    b2 = []
+    for th in angles:
+        az = rng.uniform(0, 2 * math.pi)
+        L2 = kcorr.loguniform(rng, 0.5, 20.0)
+        si = [L2 * (math.cos(th) * e[i] + math.sin(th) * (math.cos(az) * p[i] + math.sin(az) * q_[i])) for i in range(3)]
+        b2.append([hx(x / b2m) for x in si])
+    g['b2'] = b2
+    g['axis'] = True
+    wm = dict(WL_UNITS)[g['wl_unit']]
+    g['wl'] = [hx(rng.choice(AXIS_WL + [rng.uniform(0, 2e-9)]) / wm) for _ in g['wl']]
+    return g
+
+
+def gen_axis_groups(rng, tier, gid):
+    groups = []
+    for _ in range(1 if tier == 'quick' else 8):
+        # optimised path (tilt 0), inside the dispatch band, general path (small and large tilt)
+        for tilt, layout, dt in [(0.0, 'zip', 'float64'), (0.0, 'zip', 'float32'), (0.0, 'binned', 'float64'),
+                                 (1e-11, 'zip', 'float64'),
+                                 (1e-6, 'zip', 'float64'), (1e-3, 'zip', 'float32'), (0.1, 'zip', 'float64'), (1.0, 'binned', 'float32')]:
+            groups.append(make_axis_group(rng, gid, 'sawg', tilt, layout, dt))
+            gid += 1
+        for dt in ('float64', 'float32'):
+            groups.append(make_axis_group(rng, gid, 'yz', 0.0, 'zip', dt))
+            gid += 1
+    return groups
+
+
 def gen_groups(rng, tier):
     groups = []
     reps = 1 if tier == 'quick' else 12
@@ -154,6 +209,7 @@ def gen_groups(rng, tier):
         # incident beam parallel to gravity: refused
         groups.append(make_group(rng, gid, 'sawg', math.pi / 2, 'zip', 'float64', unit_len=True))
         gid += 1
+    groups += gen_axis_groups(rng, tier, gid)
     return groups
 
 
@@ -195,6 +251,8 @@ def cases_of(g, r):
     tol = '(2 # 1000000)' if f32 else '(1 # 10000000000000)'
     if g['fn'] == 'drop':
         tol = '(1 # 1000000)' if f32 else '(1 # 1000000000000)'      # relative
+    # relative accuracy for small angles / floor / widening of phi near the e_z axis (see Corr.v: tol_small, tol_phi)
+    extra = '(1 # 100000) (1 # 1000000000000) (1 # 2)' if f32 else '(1 # 1000000000) (5 # 1000000000000000) (1 # 10)'
     inband, tilt_act = band_of(st)
     band = kcorr.q([str(Fraction(1.05 * tilt_act + 1e-16).numerator), str(Fraction(1.05 * tilt_act + 1e-16).denominator)]) \
         if (inband and g['fn'] == 'sawg') else '0'
@@ -207,7 +265,7 @@ def cases_of(g, r):
                 f'{kcorr.DT[st["wl"]["dtype"]]})')
 
     def desc(i, j, impl):
-        return {'fn': g['fn'], 'tilt': g['tilt'], 'layout': g['layout'], 'in_dispatch_band': inband,
+        return {'fn': g['fn'], 'tilt': g['tilt'], 'layout': g['layout'], 'in_dispatch_band': inband, 'near_axis': bool(g.get('axis')),
                 'b1': [float(fr(c)) for c in st['b1']['values']], 'b1_unit': st['b1']['unit']['name'],
                 'g': [float(fr(c)) for c in st['g']['values']], 'g_unit': st['g']['unit']['name'],
                 'b2': [float(fr(c)) for c in st['b2']['values'][i]], 'b2_unit': st['b2']['unit']['name'],
@@ -217,7 +275,7 @@ def cases_of(g, r):
     ds = 'true' if g['layout'] != 'outer' else 'false'
     if 'error' in r:
         b2t = vin_term(st['b2']['values'][0], st['b2']['unit'])
-        t = f'(mkg "{g["fn"]}" {ds} {b1t} {b2t} {wl_term(0)} {gt} (OutErr "{r["error"]}") (OutErr "{r["error"]}") {tol} {band})'
+        t = f'(mkg "{g["fn"]}" {ds} {b1t} {b2t} {wl_term(0)} {gt} (OutErr "{r["error"]}") (OutErr "{r["error"]}") {tol} {band} {extra})'
         out.append((t, desc(0, 0, 'raises ' + r['error'])))
         return out
     res = r['result']
@@ -227,7 +285,7 @@ def cases_of(g, r):
         o1, o2 = out_of(res[names[0]], k), out_of(res[names[1]], k)
         impl = {n: kcorr.fmt(res[n]['values'][k]) for n in set(names)}
         impl['dtype'] = res[names[0]]['dtype']
-        t = f'(mkg "{g["fn"]}" {ds} {b1t} {b2t} {wl_term(j)} {gt} {o1} {o2} {tol} {band})'
+        t = f'(mkg "{g["fn"]}" {ds} {b1t} {b2t} {wl_term(j)} {gt} {o1} {o2} {tol} {band} {extra})'
         out.append((t, desc(i, j, impl)))
     return out
 
@@ -269,7 +327,7 @@ def correspondence(ctx):
         ctx.note(f'{mutated} groups had an operand modified by the call (C09 covers this)')
     kinds = {}
     for d in descs:
-        k = f'{d["fn"]}/{d["layout"]}/{d["wavelength_dtype"]}'
+        k = f'{d["fn"]}/{d["layout"]}/{d["wavelength_dtype"]}' + ('/near-axis' if d.get('near_axis') else '')
         kinds[k] = kinds.get(k, 0) + 1
     ctx.coverage.update({
         'evaluations': len(terms),
@@ -279,7 +337,13 @@ def correspondence(ctx):
                 'gravity |g| in {9.81,100,1e-11,loguniform 1e-3..100} in random directions (30% canonical -y), units m/s^2, mm/s^2, m/ms^2; '
                 '8 detectors per group (one per octant of the beam-aligned frame, components 0.05..5 m) in m/mm/cm; wavelength 0..100 angstrom '
                 'incl. 0 in angstrom/nm/m, float64 and float32; yz-plane variant at every tilt (ValueError beyond the threshold); '
-                '_drop_due_to_gravity; one beam parallel to gravity. non-trivial = the implementation returned a value (not an exception)',
+                '_drop_due_to_gravity; one beam parallel to gravity. '
+                'NEAR-AXIS groups: 8 detectors on cones around the actual incident beam with gravity-free 2theta in {1e-6,1e-5,1e-4,1e-3,1e-2,5e-2} '
+                '(x1..2) rad and pi - {1e-6,1e-4,1e-2}, random azimuth, L2 0.5..20 m, wavelength 0..20 angstrom incl. 0; tilt 0 (optimised path; '
+                'zip float64, zip float32, binned float64), 1e-11 (band), 1e-6/1e-3/0.1/1 (general path; float64 and float32), yz variant float64/float32. '
+                'tolerance: 1e-13 rad (float64) / 2e-6 rad (float32) absolute AND, for angles in the forward hemisphere, relative 1e-9 / 1e-5 of '
+                '(tan(gravity-free angle) + drop angle) but never tighter than 5e-15 / 1e-12 rad; phi: absolute tolerance x c0/rho where the raised beam '
+                'is within sine rho < c0 (0.1 / 0.5) of the e_z axis. non-trivial = the implementation returned a value (not an exception)',
         'samples': [{k: d[k] for k in d if k != 'group'} for d in (descs[:2] + descs[len(descs) // 2:len(descs) // 2 + 2] + descs[-1:])],
         'per_kind': kinds,
         'disagreements': len(fails),
@@ -437,18 +501,278 @@ def consequences(ctx):
                               f'gives {_vals(x, name)[0]!r}', desc)
                 found.append(desc)
                 break
+    n_checks += consequences_axis(ctx, found)
     ctx.coverage['consequence_checks'] = n_checks
     return found
 
 
+def consequences_axis(ctx, found, seed_shift=0):
+    """limit lambda -> 0 and 'larger than the gravity-free angle' for detectors CLOSE TO THE BEAM AXIS (gravity-free
+    2theta 1e-6..5e-2 rad, above the beam), float64 and float32 wavelength, optimised path (tilt 0) and general path
+    (tilt 1e-9: horizontal beam; 1e-3: limit only).  The limit is demanded with RELATIVE accuracy (1e-9 resp. 1e-5 of the
+    gravity-free angle, never tighter than 5e-15 / 1e-12 rad)."""
+    rng = random.Random(ctx.seed + 11 + seed_shift)
+    groups, meta = [], []
+    n_cfg = 3 if ctx.tier == 'quick' else 12
+    for ci in range(n_cfg):
+        up, u, w = frame(rng, ci == 0)
+        gm = rng.choice([9.81, 100.0])
+        lam = rng.choice([10.0, 30.0])
+        g = [-gm * c for c in up]
+        for tilt in (0.0, 1e-9, 1e-3):
+            e = [math.cos(tilt) * a + math.sin(tilt) * b for a, b in zip(u, up)]
+            q_ = [-math.sin(tilt) * a + math.cos(tilt) * b for a, b in zip(u, up)]
+            dets = []
+            for th in AXIS_ANGLES:
+                th = th * rng.uniform(1.0, 2.0)
+                az = rng.uniform(math.pi / 6, 5 * math.pi / 6)
+                L2 = kcorr.loguniform(rng, 0.5, 20.0)
+                dets.append([L2 * (math.cos(th) * e[i] + math.sin(th) * (math.cos(az) * w[i] + math.sin(az) * q_[i])) for i in range(3)])
+            for dt in ('float64', 'float32'):
+                for nm, fn, wl in (('grav', 'sawg', lam), ('lam0', 'sawg', 1e-6), ('free', 'two_theta', lam)):
+                    if nm == 'free' and dt == 'float32':
+                        continue
+                    groups.append(_grp(len(groups), fn, e, dets, wl, g, dt))
+                    meta.append((ci, tilt, dt, nm))
+    res = ctx.run_impl('c04_impl.py', {'groups': groups})
+    tab = {}
+    for m, g_, r in zip(meta, groups, res['groups']):
+        if 'result' not in r:
+            ctx.violation(f'consequence:near-axis:raises:{m[3]}', f'{g_["fn"]} raised {r.get("error")} ({r.get("error_text")}) for detectors close to the beam axis',
+                          {'kind': 'consequence', 'groups': [g_]})
+            found.append({'groups': [g_]})
+            continue
+        tab[m] = (g_, _vals(r, 'two_theta'))
+    n = 0
+    seen = set()
+    for (ci, tilt, dt, nm), (g0, gv) in sorted(tab.items()):
+        if nm != 'grav':
+            continue
+        free = tab.get((ci, tilt, 'float64', 'free'))
+        lim = tab.get((ci, tilt, dt, 'lam0'))
+        if free is None:
+            continue
+        path = 'optimised' if tilt == 0.0 else 'general'
+        rel, floor, cap = (1e-9, 5e-15, 1e-9) if dt == 'float64' else (1e-5, 1e-12, 2e-6)
+        for k, fv in enumerate(free[1]):
+            def viol(key, text, pairs):
+                if key in seen:      # one concrete input per class
+                    return
+                seen.add(key)
+                gs = [dict(x[0], b2=[x[0]['b2'][k]], wl=[x[0]['wl'][k]], layout='scalar') for _, x in pairs]
+                obj = {'kind': 'consequence', 'check': key, 'groups': gs, 'values': {n_: x[1][k] for n_, x in pairs},
+                       'input': {'g_m_s2': [float.fromhex(c) for c in g0['g']], 'b1_m': [float.fromhex(c) for c in g0['b1']],
+                                 'b2_m': [float.fromhex(c) for c in g0['b2'][k]], 'wavelength_dtype': dt,
+                                 'gravity_free_two_theta': fv}}
+                ctx.violation(key, text + f' [g={obj["input"]["g_m_s2"]} m/s^2, b1={obj["input"]["b1_m"]} m, b2={obj["input"]["b2_m"]} m, {dt} wavelength]', obj)
+                found.append(obj)
+            if lim is not None:
+                n += 1
+                tol = min(cap, max(rel * fv, floor))
+                if not abs(lim[1][k] - fv) <= tol:
+                    viol(f'limit:lam0:{path}:near-axis:{dt}',
+                         f'detector {fv:.3e} rad from the beam axis: two_theta for lambda -> 0 (1e-6 angstrom) is {lim[1][k]!r}, the gravity-free '
+                         f'angle is {fv!r} (difference {lim[1][k] - fv:.3e}, allowed {tol:.3e})', [('lam0', lim), ('free', free)])
+            if tilt <= 1e-9:
+                n += 1
+                if not gv[k] > fv:
+                    viol(f'sign:detector-above-horizontal-beam:{path}:near-axis:{dt}',
+                         f'detector {fv:.3e} rad from the axis of a horizontal beam and above it (tilt {tilt} rad): gravity-corrected two_theta '
+                         f'{gv[k]!r} is not larger than the gravity-free angle {fv!r}', [('grav', (g0, gv)), ('free', free)])
+    ctx.coverage['near_axis_consequence_checks'] = n
+    return n
+
+
+# ---------------------------------------------------------------------------------------------------
+# The documented construction in 70-digit decimal arithmetic on the operands exactly as stored.  Used ONLY by
+# search() (an obligation broke - possibly the model no longer compiles, so that Coq cannot compare): it evaluates the
+# property statement "result = construction" on the implementation with the tolerances of the Coq comparison.
+from decimal import Decimal, localcontext
+
+HP_PREC = 70
+
+
+def _dq(pair):
+    return Decimal(int(pair[0])) / Decimal(int(pair[1]))
+
+
+def _d_atan(t):
+    """atan of a Decimal t >= 0 (current context precision)"""
+    if t > 1:
+        return _d_pi() / 2 - _d_atan(1 / t)
+    k = 0
+    while t > Decimal('0.05'):
+        t = t / (1 + (1 + t * t).sqrt())
+        k += 1
+    s, term, n, t2 = t, t, 1, t * t
+    while True:
+        term = -term * t2
+        n += 2
+        a = term / n
+        s += a
+        if abs(a) < Decimal(10) ** (-HP_PREC - 5):
+            break
+    return s * (2 ** k)
+
+
+_PI = []
+
+
+def _d_pi():
+    if not _PI:
+        _PI.append(None)   # guard against recursion: Machin, arguments < 1
+        _PI[0] = 16 * _d_atan(Decimal(1) / 5) - 4 * _d_atan(Decimal(1) / 239)
+    return _PI[0]
+
+
+def _d_atan2(y, x):
+    if x == 0 and y == 0:
+        return Decimal(0)
+    if x == 0:
+        return _d_pi() / 2 if y > 0 else -_d_pi() / 2
+    a = _d_atan(abs(y) / abs(x))
+    if x < 0:
+        a = _d_pi() - a
+    return a if y >= 0 else -a
+
+
+def hp_construction(st, i, j, consts):
+    """-> dict of Decimals (SI / rad) for detector i, wavelength j of the stored operands `st`"""
+    with localcontext() as c:
+        c.prec = HP_PREC
+        def v3(o, vals):
+            m = _dq(o['unit']['mult'])
+            return [_dq(x) * m for x in vals]
+        dot = lambda a, b: sum((x * y for x, y in zip(a, b)), Decimal(0))
+        nrm = lambda a: dot(a, a).sqrt()
+        cross = lambda a, b: [a[1] * b[2] - a[2] * b[1], a[2] * b[0] - a[0] * b[2], a[0] * b[1] - a[1] * b[0]]
+        b1 = v3(st['b1'], st['b1']['values'][:3])
+        b2 = v3(st['b2'], st['b2']['values'][i])
+        g = v3(st['g'], st['g']['values'])
+        lam = _dq(st['wl']['values'][j]) * _dq(st['wl']['unit']['mult'])
+        h, mn = _dq(consts['h']['value']) * _dq(consts['h']['unit']['mult']), _dq(consts['m_n']['value']) * _dq(consts['m_n']['unit']['mult'])
+        gn = nrm(g)
+        ey = [-x / gn for x in g]
+        z = [a - dot(b1, ey) * e for a, e in zip(b1, ey)]
+        zn = nrm(z)
+        out = {'g_dot_b1_over_g': abs(dot(g, b1)) / gn / _dq(st['b1']['unit']['mult']), 'horizontal': zn}
+        if zn == 0:
+            return out
+        ez = [x / zn for x in z]
+        ex = cross(ey, ez)
+        L2 = nrm(b2)
+        d = gn * mn * mn * lam * lam * dot(b2, b2) / (2 * h * h)
+        cc = [a + d * e for a, e in zip(b2, ey)]
+        yd = dot(b2, ey)
+        sin_free = nrm(cross(b1, b2))
+        cos_free = dot(b1, b2)
+        out.update({
+            'delta': d, 'L2': L2,
+            'two_theta': _d_atan2(nrm(cross(b1, cc)), dot(b1, cc)),
+            'phi': _d_atan2(dot(cc, ey), dot(cc, ex)),
+            'gamma': _d_atan2(abs(yd + d), dot(b2, ez)),
+            'free': _d_atan2(sin_free, cos_free),
+            # conditioning scales: the size of the quantities the angle is assembled from
+            'scale_tt': (sin_free / cos_free + d / L2) if cos_free > 0 else None,
+            'scale_gamma': ((abs(yd) + d) / dot(b2, ez)) if dot(b2, ez) > 0 else None,
+            # phi = atan2(y', x) is ill-conditioned where the raised beam is close to the e_z axis
+            'rho': (dot(cc, ey) ** 2 + dot(cc, ex) ** 2).sqrt() / nrm(cc) if nrm(cc) > 0 else Decimal(0),
+        })
+        # all values are plain Decimals; leave the context
+        return out
+
+
 def search(ctx, broken):
-    """an obligation broke: evaluate the property's own statement on the implementation (continuity across the
-    dispatch threshold, limits, monotonic sign).  The same checks already ran at the end of correspondence();
-    re-use their findings."""
-    cons = [v for v in ctx.violations if isinstance(v.replay, dict) and v.replay.get('kind') in ('consequence', 'case')]
-    if cons:
-        return [v.replay for v in cons]
-    return consequences(ctx)
+    """an obligation broke (a proof, the model no longer compiles / evaluates, or a changed statement that no harness
+    process executed): evaluate the property's own statement on the implementation.
+    1. the consequences (continuity across the dispatch threshold, limits, sign; also close to the beam axis) already
+       ran at the end of correspondence(): re-use their findings and those of the Coq comparison;
+    2. otherwise compare the implementation with the documented construction (70-digit decimal arithmetic on the stored
+       operands, tolerances of the Coq comparison) on a fresh stream of the correspondence's input classes - every
+       entry point, both paths, the dispatch band, detectors close to the beam axis, float32/64, dense/binned."""
+    have = [v.replay for v in ctx.violations if isinstance(v.replay, dict) and v.replay.get('kind') in ('consequence', 'case')]
+    if any(x.get('kind') == 'case' for x in have):
+        return have                       # the Coq comparison already produced concrete elements
+    found = have + construction_search(ctx, max_keys=4)
+    if not found:
+        consequences_axis(ctx, found, seed_shift=101)
+    return found
+
+
+def construction_search(ctx, max_keys=6):
+    rng = random.Random(ctx.seed + 17)
+    groups = gen_groups(rng, ctx.tier)
+    gid = len(groups)
+    for _ in range(2):
+        more = gen_axis_groups(rng, 'quick', gid)
+        groups += more
+        gid += len(more)
+    res = ctx.run_impl('c04_impl.py', {'groups': groups})
+    consts = res['constants']
+    found, keys, n = [], set(), 0
+    for g, r in zip(groups, res['groups']):
+        if 'build_error' in r:
+            continue
+        st = r['stored']
+        f32 = st['wl']['dtype'] == 'float32'
+        atol = Decimal('2e-6') if f32 else Decimal('1e-13')
+        rel, floor, c0 = (Decimal('1e-5'), Decimal('1e-12'), Decimal('0.5')) if f32 else (Decimal('1e-9'), Decimal('5e-15'), Decimal('0.1'))
+        inband, tilt_act = band_of(st)
+        for k, (_, d) in enumerate(cases_of(g, r)):
+            i, j = d['element']
+            hp = hp_construction(st, i, j, consts)
+            n += 1
+            if 'two_theta' not in hp or hp['horizontal'] / _dq(st['b1']['unit']['mult']) < Decimal('1e-6'):
+                continue                                   # incident beam (numerically) parallel to gravity: not quantified over
+            ratio = hp['g_dot_b1_over_g'] / Decimal('1e-10')
+            beyond, within = ratio > Decimal('1.000001'), ratio < Decimal('0.999999')
+            band = Decimal(1.05 * tilt_act + 1e-16) if (inband and g['fn'] == 'sawg') else Decimal(0)
+            bad = []      # (name, observed, required, allowed)
+            raised = not isinstance(d['impl'], dict)
+            if g['fn'] == 'yz' and not (beyond or within):
+                continue                                   # on the refusal threshold: either answer
+            if g['fn'] == 'yz' and beyond:
+                if d['impl'] != 'raises ValueError':
+                    bad.append(('refusal', d['impl'], 'ValueError (incident beam not perpendicular to gravity)', ''))
+            elif raised:
+                bad.append(('raises', d['impl'], 'a value', ''))
+            elif g['fn'] == 'drop':
+                v = r['result']['drop']['values'][k]
+                x = None if isinstance(v, str) else _dq(v) * _dq(r['result']['drop']['unit']['mult'])
+                rt = (Decimal('1e-6') if f32 else Decimal('1e-12')) * hp['delta']
+                if x is None or abs(x - hp['delta']) > rt:
+                    bad.append(('drop', v if x is None else float(x), hp['delta'], rt))
+            else:
+                if g['fn'] == 'sawg':
+                    t1 = (min(atol, max(rel * hp['scale_tt'], floor)) if hp['scale_tt'] is not None else atol) + band
+                    t2 = (Decimal(1000) if hp['rho'] <= 0 else atol if hp['rho'] >= c0 else atol * c0 / hp['rho']) + band
+                    todo = [('two_theta', hp['two_theta'], t1), ('phi', hp['phi'], t2)]
+                else:
+                    todo = [('gamma', hp['gamma'], min(atol, max(rel * hp['scale_gamma'], floor)) if hp['scale_gamma'] is not None else atol)]
+                for name, req, tol in todo:
+                    v = r['result'][name]['values'][k]
+                    x = None if isinstance(v, str) else _dq(v)
+                    if x is None or abs(x - req) > tol:
+                        bad.append((name, v if x is None else float(x), req, tol))
+            for name, obs, req, tol in bad:
+                path = 'band' if inband else 'general'
+                if inband and tilt_act == 0.0:
+                    path = 'optimised'
+                near = 'near-axis' if g.get('axis') else 'wide'
+                key = f'construction:{g["fn"]}:{path}:{name}:{near}:{st["wl"]["dtype"]}'
+                if key in keys or len(keys) >= max_keys:
+                    continue
+                keys.add(key)
+                what = (f'{g["fn"]} ({path} path, tilt {g["tilt"]}, {st["wl"]["dtype"]} wavelength, {near} detector): {name} is {obs!r}, '
+                        f'the documented construction gives {req if isinstance(req, str) else float(req)!r}'
+                        + (f' (difference {float(Decimal(obs) - req):.3e}, allowed {float(tol):.3e}; gravity-free angle {float(hp["free"]):.3e} rad)'
+                           if isinstance(obs, float) and not isinstance(req, str) else '')
+                        + f': b1={d["b1"]} {d["b1_unit"]}, b2={d["b2"]} {d["b2_unit"]}, lambda={d["wavelength"]} {d["wavelength_unit"]}, g={d["g"]} {d["g_unit"]}')
+                obj = {'kind': 'case', 'case': d, 'reason': f'search:{name}', 'required': str(req), 'allowed': str(tol)}
+                ctx.violation(key, what, obj)
+                found.append(obj)
+    ctx.coverage['search_construction_evaluations'] = n
+    return found
 
 
 def replay(ctx, obj):
@@ -481,10 +805,11 @@ def py_construction(c):
     table = dict(LEN_UNITS + WL_UNITS + G_UNITS)
     def mult(u):
         return table[u]
-    b1 = [x * mult(c['b1_unit']) for x in c['b1']]
-    b2 = [x * mult(c['b2_unit']) for x in c['b2']]
-    g = [x * mult(c['g_unit']) for x in c['g']]
-    lam = c['wavelength'] * mult(c['wavelength_unit'])
+    grp = c.get('group', {})      # the unit spellings of the request (scipp prints angstrom as a symbol)
+    b1 = [x * mult(grp.get('b1_unit', c['b1_unit'])) for x in c['b1']]
+    b2 = [x * mult(grp.get('b2_unit', c['b2_unit'])) for x in c['b2']]
+    g = [x * mult(grp.get('g_unit', c['g_unit'])) for x in c['g']]
+    lam = c['wavelength'] * mult(grp.get('wl_unit', c['wavelength_unit']))
     h, mn = 6.62607015e-34, 1.67492750056e-27
     dot = lambda a, b: sum(x * y for x, y in zip(a, b))
     nrm = lambda a: math.sqrt(dot(a, a))
